@@ -498,6 +498,7 @@ func genDkgLib(rng *hx.Rng, tier string, w *hx.Writer, prop string) error {
 				return d, desc, true
 			}}
 		}},
+		{"fewer-commitments-than-threshold", func(s *dkgSess, b int) dkgHooks { return shortCommitments(s, b) }},
 		{"wrong-index", func(s *dkgSess, b int) dkgHooks {
 			return dkgHooks{deal: func(i, j int) (*dkg.Deal, *edealDesc, bool) {
 				if j != b {
@@ -558,6 +559,64 @@ func genDkgLib(rng *hx.Rng, tier string, w *hx.Writer, prop string) error {
 		}
 	}
 	return nil
+}
+
+// Byzantine dealer b: a valid threshold T = t, but commitments of a CONSTANT polynomial (one
+// coefficient), every share equal to that constant, the session id derived from exactly this content:
+// every check a verifier makes passes (the commitment count is not compared with T)
+func shortCommitments(s *dkgSess, b int) dkgHooks {
+	a0 := new(big.Int).Add(s.rng.BigBelow(new(big.Int).Sub(BnQ, big.NewInt(1))), big.NewInt(1))
+	c1 := []*big.Int{a0}
+	return dkgHooks{deal: func(i, j int) (*dkg.Deal, *edealDesc, bool) {
+		if j != b {
+			return nil, nil, true
+		}
+		p := plainDesc{sid: sidDesc{dealer: s.members[b], members: s.members, commits: c1, t: s.t}, idx: i, share: new(big.Int).Set(a0), t: s.t, commits: c1}
+		d, desc := s.byzDeal(b, i, p)
+		return d, desc, true
+	}}
+}
+
+// dkgCrashProbe runs one library-level session with a Byzantine dealer of the given kind and says
+// whether any call panicked (C12 judges only that)
+func dkgCrashProbe(kr *keyring, rng *hx.Rng, n int, base int, kind string) (bool, error) {
+	b := rng.Intn(n)
+	s, err := newDkgSess(kr, rng, n, []int{b}, base)
+	if err != nil {
+		return false, err
+	}
+	var h dkgHooks
+	switch kind {
+	case "fewer-commitments-than-threshold":
+		h = shortCommitments(s, b)
+	default: // more / fewer coefficients, announced consistently
+		dt := 1
+		if kind == "one-coefficient-less" {
+			dt = -1
+		}
+		if s.t+dt < 1 {
+			dt = 1
+		}
+		c2 := randCoeffs(rng, s.t+dt, BnQ)
+		if c2[len(c2)-1].Sign() == 0 {
+			c2[len(c2)-1] = big.NewInt(5)
+		}
+		h = dkgHooks{deal: func(i, j int) (*dkg.Deal, *edealDesc, bool) {
+			if j != b {
+				return nil, nil, true
+			}
+			dl := &dealing{dealer: s.members[b], members: s.members, t: s.t + dt, coeffs: c2}
+			d, desc := s.byzDeal(b, i, dl.honestPlain(i))
+			return d, desc, true
+		}}
+	}
+	s.runFlow(h)
+	for _, im := range s.impl {
+		if im == hx.P {
+			return true, nil
+		}
+	}
+	return false, nil
 }
 
 // Byzantine dealer b gives one half of the honest members polynomial A and the other half B
